@@ -1,11 +1,97 @@
-import AlgoVerif.Model.C18
-import AlgoVerif.Spec.C18
+import AlgoVerif.Proofs.C18Stack
+import AlgoVerif.Proofs.C18Queue
+import AlgoVerif.Proofs.C18Soft
 /-!
 # C18 — property theorems (statements only live here; helper lemmas in `Proofs/C18*.lean`)
+
+Reading of the property.  `Stack.run zero eq s ops` / `Queue.run …` / `SoftQueue.run …`
+(`Model/C18Run.lean`) execute a history on the Model of `/repo/list/{stack,queue,soft_queue}.go` and
+return one `Outcome (Out α)` per operation; the trace would end with `panic` (index out of range /
+nil dereference) or `diverge` (the `Contains` loop ran out of fuel) at the first failing operation.
+`Spec.S.run` / `Spec.Q.run` / `Spec.SQ.run` execute the same history on the abstract sequence
+(`Spec/C18.lean`: stack = list with push/pop at the head; queue = list with enqueue at the back and
+dequeue at the front; soft queue = every value ever enqueued + how many were dequeued).
+
+Each theorem says: for EVERY block size ≥ 1, EVERY `equal` function, EVERY zero value, EVERY value
+type and EVERY finite history, the Model's trace is exactly the Spec's outputs, each wrapped in
+`Outcome.ok` — so no operation panics or hangs, and Push/Pop/Peek/Contains/Size/IsEmpty (resp.
+Enqueue/Dequeue/…) return what the abstract sequence returns.  In particular `Contains` is
+`List.any` over the *live* values only: it never reports a value that was already removed or never
+added (stale cells of a block are not seen).
+
+Proof: forward simulation (`runTrace_refines`) with the abstraction functions `Stack.abs`,
+`Queue.abs` (live cells of the block chain) and the invariants `Stack.Inv`, `Queue.Inv`
+(DESIGN.md Appendix B), by induction over the history.  No bound on anything.
 -/
 open AlgoVerif AlgoVerif.C18
 
-/-- placeholder until the refinement proofs land (keeps the pipeline honest: one obligation). -/
-theorem C18_softQueue_new_isEmpty : (SoftQueue.new : SoftQueue Int).isEmpty = true := by
+/-- The block-chain stack pops in reverse push order; Size, IsEmpty, Peek, Contains agree with the
+abstract list; nothing panics or hangs. -/
+theorem C18_stack_refines {α : Type} (zero : α) (eq : α → α → Bool) (blockSize : Nat)
+    (hB : 1 ≤ blockSize) (ops : List (Op α)) :
+    Stack.run zero eq (Stack.new blockSize) ops = (Spec.S.run eq [] ops).map Outcome.ok :=
+  Stack.run_refines zero eq blockSize hB ops
+
+/-- non-vacuity: block size 2, five pushes (three blocks), `Contains` of a live and of an absent
+value, then popping across both block boundaries down to empty, a pop on empty, and a refill. -/
+example :
+    Stack.run (0 : Int) (fun a b => a == b) (Stack.new 2)
+      [.add 1, .add 2, .add 3, .add 4, .add 5, .size, .contains 1, .contains 9, .remove, .peek, .remove,
+       .remove, .contains 4, .remove, .remove, .isEmpty, .remove, .add 7, .peek, .contains 5]
+    = [.ok .unit, .ok .unit, .ok .unit, .ok .unit, .ok .unit, .ok (.int 5), .ok (.bool true),
+       .ok (.bool false), .ok (.val (some 5)), .ok (.val (some 4)), .ok (.val (some 4)),
+       .ok (.val (some 3)), .ok (.bool false), .ok (.val (some 2)), .ok (.val (some 1)),
+       .ok (.bool true), .ok (.val none), .ok .unit, .ok (.val (some 7)), .ok (.bool false)] := by
   decide
 
+/-- The block-chain queue dequeues in enqueue order (FIFO); Size, IsEmpty, Peek agree with the
+abstract list and `Contains` ranges over the live cells only; nothing panics or hangs. -/
+theorem C18_queue_refines {α : Type} (zero : α) (eq : α → α → Bool) (blockSize : Nat)
+    (hB : 1 ≤ blockSize) (ops : List (Op α)) :
+    Queue.run zero eq (Queue.new blockSize) ops = (Spec.Q.run eq [] ops).map Outcome.ok :=
+  Queue.run_refines zero eq blockSize hB ops
+
+/-- non-vacuity: block size 2; the history of the historic defect D22 (enq, enq, deq, deq, enq:
+the queue is drained exactly at a block boundary and refilled), then `Contains` of the stale values
+1 and 2 (still physically in the abandoned block) is `false`, then growth across a boundary and a
+drain across it. -/
+example :
+    Queue.run (0 : Int) (fun a b => a == b) (Queue.new 2)
+      [.add 1, .add 2, .remove, .remove, .add 3, .contains 1, .contains 2, .contains 3, .add 4, .add 5,
+       .size, .remove, .peek, .remove, .contains 4, .remove, .remove, .isEmpty]
+    = [.ok .unit, .ok .unit, .ok (.val (some 1)), .ok (.val (some 2)), .ok .unit, .ok (.bool false),
+       .ok (.bool false), .ok (.bool true), .ok .unit, .ok .unit, .ok (.int 3), .ok (.val (some 3)),
+       .ok (.val (some 4)), .ok (.val (some 4)), .ok (.bool false), .ok (.val (some 5)), .ok (.val none),
+       .ok (.bool true)] := by
+  decide
+
+/-- The soft queue: Enqueue returns the index of the new value, Dequeue/Peek return the front value
+with its index (or index -1 when empty), Contains returns the first index in `Values()` (dequeued
+values included) or -1, Size/IsEmpty/Values agree with the Spec; nothing panics. -/
+theorem C18_softQueue_refines {α : Type} (eq : α → α → Bool) (ops : List (SoftOp α)) :
+    SoftQueue.run eq SoftQueue.new ops = (Spec.SQ.run eq {} ops).map Outcome.ok :=
+  SoftQueue.run_refines eq ops
+
+/-- Stable positions, stated on the Model's observable outputs alone: in any history, the index `i`
+returned by an `Enqueue v` is the position at which `Values()` holds `v` after ANY further history
+`ops₂` ("forever after"). -/
+theorem C18_softQueue_stable_positions {α : Type} (eq : α → α → Bool) (ops₁ : List (SoftOp α)) (v : α)
+    (ops₂ : List (SoftOp α)) :
+    ∃ (i : Nat) (l : List α),
+      (SoftQueue.run eq SoftQueue.new (ops₁ ++ SoftOp.enq v :: (ops₂ ++ [SoftOp.values])))[ops₁.length]?
+        = some (.ok (Out.int i)) ∧
+      (SoftQueue.run eq SoftQueue.new (ops₁ ++ SoftOp.enq v :: (ops₂ ++ [SoftOp.values]))).getLast?
+        = some (.ok (Out.list l)) ∧
+      l[i]? = some v :=
+  SoftQueue.stable_positions eq ops₁ v ops₂
+
+/-- non-vacuity: enqueue, dequeue to empty, dequeue on empty, refill; indices keep counting and
+`Values()` keeps the dequeued values at their positions. -/
+example :
+    SoftQueue.run (fun (a b : Int) => a == b) SoftQueue.new
+      [.enq 10, .enq 20, .deq, .peek, .deq, .deq, .isEmpty, .enq 30, .contains 10, .contains 99, .size,
+       .peek, .values]
+    = [.ok (.int 0), .ok (.int 1), .ok (.valIdx (some (10, 0))), .ok (.valIdx (some (20, 1))),
+       .ok (.valIdx (some (20, 1))), .ok (.valIdx none), .ok (.bool true), .ok (.int 2), .ok (.int 0),
+       .ok (.int (-1)), .ok (.int 1), .ok (.valIdx (some (30, 2))), .ok (.list [10, 20, 30])] := by
+  decide
